@@ -1323,7 +1323,7 @@ pub fn run_generic(prop: &str, cfg: &RunCfg, rep: &mut Report, nseq: u64, maxlen
     let mut lean = if cfg.use_lean { Some(LeanDriver::spawn("verifreg").expect("lean driver")) } else { None };
     let mut seen = HashSet::new();
     let seqs: Vec<u64> = match cfg.only_seq {
-        Some(k) => if k >= seq_base { vec![k] } else { vec![] },
+        Some(k) => if k >= seq_base && k < 100_000 { vec![k] } else { vec![] },
         None => (seq_base..seq_base + nseq).collect(),
     };
     'seqs: for seq in seqs {
@@ -1389,10 +1389,180 @@ pub fn run_generic(prop: &str, cfg: &RunCfg, rep: &mut Report, nseq: u64, maxlen
     }
 }
 
+/// Market-mediated allocations: real `PublishStorageDeals` (verified deals) on the market actor.
+/// The `TransferFrom` the market sends to the datacap actor (operator = market, infinite
+/// allowance from the grant) is read from the invocation trace and is the model's op.
+pub fn run_market(prop: &str, cfg: &RunCfg, rep: &mut Report, nseq: u64, seq_base: u64) {
+    use fil_actor_market::{ClientDealProposal, DealProposal, Label, Method as MarketMethod, PublishStorageDealsParams};
+    use fil_actors_runtime::STORAGE_MARKET_ACTOR_ADDR;
+    let mut lean = if cfg.use_lean { Some(LeanDriver::spawn("verifreg").expect("lean driver")) } else { None };
+    let seqs: Vec<u64> = match cfg.only_seq {
+        Some(k) => if k >= seq_base && k < seq_base + 100_000 { vec![k] } else { vec![] },
+        None => (seq_base..seq_base + nseq).collect(),
+    };
+    'seqs: for seq in seqs {
+        let mut r = seq_rng(cfg.seed, seq);
+        let s = setup(4, 1);
+        let mut epoch: i64 = r.range(1, 40);
+        s.w.vm.set_epoch(epoch);
+        let mut lines: Vec<String> = vec![s.init_line()];
+        if let Some(l) = lean.as_mut() { l.ask(&lines[0]).unwrap(); }
+        rep.sequences += 1;
+        let mut g = Ghost::default();
+        let mut notes: Vec<String> = vec![];
+        let (owner, verifier) = (s.accounts[0], s.accounts[1].id().unwrap());
+        let clients = [s.accounts[2], s.accounts[3]];
+        let maddr = s.miners[0];
+        let hdr = |step: &str| vec![
+            format!("property {} seed {} seq {} (re-run: ba_harness {} --seed {} --only-seq {})", prop, cfg.seed, seq, prop.to_lowercase(), cfg.seed, seq),
+            format!("market scenario, failing step: {}", step),
+        ];
+        macro_rules! run_op {
+            ($op:expr) => {{
+                let op = $op;
+                rep.op(op.name());
+                rep.ops += 1;
+                let o = exec_op(&s, &op, epoch, &mut g, &mut lean, &mut lines, &mut notes);
+                if o.ok { rep.ops_ok += 1; } else { rep.err(&format!("{}:{}", op.name(), o.class)); }
+                if let Some((kind, detail)) = o.violation {
+                    let path = write_replay(prop, &format!("{}-{}", cfg.seed, seq), &hdr(&format!("{:?}", op)), &lines);
+                    rep.violations.push(Violation { kind, detail, replay: path });
+                    continue 'seqs;
+                }
+                if let Some((i, m)) = o.disagreement {
+                    let path = write_replay(prop, &format!("corr-{}-{}", cfg.seed, seq), &hdr(&format!("{:?}", op)), &lines);
+                    rep.disagreements.push(Disagreement { seq, step: lines.len() as u64, op: lines.last().unwrap().clone(), impl_out: i, model_out: m, replay: path });
+                    continue 'seqs;
+                }
+            }};
+        }
+        run_op!(Op::AddVerifier { caller: ROOT_ID, addr: verifier, allowance: BigInt::from(MIN_ALLOC_SIZE) * BigInt::from(64) });
+        run_op!(Op::AddClient { caller: verifier, client: clients[0].id().unwrap(), allowance: BigInt::from(MIN_ALLOC_SIZE) * BigInt::from(r.range(2, 8)) });
+        if r.chance(1, 2) {
+            run_op!(Op::AddClient { caller: verifier, client: clients[1].id().unwrap(), allowance: BigInt::from(MIN_ALLOC_SIZE) * BigInt::from(r.range(1, 3)) });
+        }
+        // escrow for the clients and the provider
+        for c in clients.iter() {
+            let a = s.w.apply(c, &STORAGE_MARKET_ACTOR_ADDR, &TokenAmount::from_whole(50), MarketMethod::AddBalance as u64, Some(*c));
+            assert!(a.ok(), "market AddBalance: {:?}", a);
+        }
+        let a = s.w.apply(&owner, &STORAGE_MARKET_ACTOR_ADDR, &TokenAmount::from_whole(500), MarketMethod::AddBalance as u64, Some(maddr));
+        assert!(a.ok(), "market AddBalance: {:?}", a);
+        s.w.take_trace();
+        let n_pub = r.range(1, 4);
+        let mut label_k = 0u64;
+        for _ in 0..n_pub {
+            let client = *r.pick(&clients);
+            let nd = r.range(1, 3);
+            let mut deals = vec![];
+            for _ in 0..nd {
+                let size = (MIN_ALLOC_SIZE as u64) << r.below(3);
+                let start = epoch + r.range(200, 3000);
+                let lifetime = MIN_TERM + r.range(0, 30) * 2880;
+                let label = format!("p{}", label_k % N_DATA);
+                label_k += 1;
+                let proposal = DealProposal {
+                    piece_cid: make_piece_cid(label.as_bytes()),
+                    piece_size: PaddedPieceSize(size),
+                    verified_deal: r.chance(4, 5),
+                    client,
+                    provider: maddr,
+                    label: Label::String(label),
+                    start_epoch: start,
+                    end_epoch: start + lifetime,
+                    storage_price_per_epoch: TokenAmount::from_atto(1u64 << 10),
+                    provider_collateral: TokenAmount::from_whole(2),
+                    client_collateral: TokenAmount::from_whole(1),
+                };
+                let sig = Signature { sig_type: SignatureType::BLS, bytes: RawBytes::serialize(&proposal).unwrap().to_vec() };
+                deals.push(ClientDealProposal { proposal, client_signature: sig });
+            }
+            let before = project(&s);
+            let res = s.w.apply(&owner, &STORAGE_MARKET_ACTOR_ADDR, &TokenAmount::zero(), MarketMethod::PublishStorageDeals as u64, Some(PublishStorageDealsParams { deals }));
+            let traces = s.w.take_trace();
+            let after = project(&s);
+            rep.op("publish-deals");
+            lines.push(format!("# epoch {} market PublishStorageDeals by {} for client {} -> {}", epoch, owner.id().unwrap(), client.id().unwrap(), exit_class(res.code)));
+            if res.panicked {
+                let path = write_replay(prop, &format!("{}-{}", cfg.seed, seq), &hdr("publish"), &lines);
+                rep.violations.push(Violation { kind: "panic".into(), detail: res.message.clone(), replay: path });
+                continue 'seqs;
+            }
+            // successful TransferFrom calls of the market inside a successful publish
+            let mut calls: Vec<&InvocationTrace> = vec![];
+            fn find<'a>(t: &'a InvocationTrace, out: &mut Vec<&'a InvocationTrace>) {
+                if !t.exit_code.is_success() { return; }
+                if t.to == DATACAP_TOKEN_ACTOR_ADDR && t.method == DcMethod::TransferFromExported as u64 { out.push(t); }
+                for x in &t.subinvocations { find(x, out); }
+            }
+            if res.ok() { for t in &traces { find(t, &mut calls); } }
+            if calls.is_empty() {
+                if before != after {
+                    let path = write_replay(prop, &format!("{}-{}", cfg.seed, seq), &hdr("publish"), &lines);
+                    rep.violations.push(Violation { kind: "registry-or-token-changed-without-datacap-call".into(), detail: format!("{} -> {}", show(&before), show(&after)), replay: path });
+                    continue 'seqs;
+                }
+                continue;
+            }
+            if calls.len() > 1 {
+                rep.notes.push("publish with more than one TransferFrom call skipped".into());
+                break;
+            }
+            let t = calls[0];
+            let tp: TransferFromParams = t.params.clone().unwrap().deserialize().unwrap();
+            let reqs: AllocationRequests = fvm_ipld_encoding::from_slice(tp.operator_data.bytes()).unwrap();
+            let data = Some((
+                reqs.allocations.iter().map(|a| AReq { provider: a.provider, data: s.data_of(&a.data), size: a.size.0 as i64, term_min: a.term_min, term_max: a.term_max, expiration: a.expiration }).collect::<Vec<_>>(),
+                reqs.extensions.iter().map(|e| EReq { provider: e.provider, claim: e.claim, term_max: e.term_max }).collect::<Vec<_>>(),
+            ));
+            let op = Op::TransferFrom { caller: t.from, from: tp.from.id().unwrap(), to: tp.to.id().unwrap(), amount: tp.amount.atto().clone(), data };
+            let line = format!("transferfrom {} {} {} {} {} {}", epoch, t.from, tp.from.id().unwrap(), tp.to.id().unwrap(), tp.amount.atto(), match &op { Op::TransferFrom { data, .. } => data_line(data), _ => unreachable!() });
+            let tr: TransferFromReturn = t.return_value.clone().unwrap().deserialize().unwrap();
+            let ar: AllocationsResponse = fvm_ipld_encoding::from_slice(tr.recipient_data.bytes()).unwrap();
+            let mut codes = codes_of(&ar.allocation_results);
+            codes.extend(codes_of(&ar.extension_results));
+            let ret = show_ret(codes, ar.new_allocations.clone(), vec![]);
+            rep.op("transferfrom-by-market");
+            rep.ops += 1;
+            rep.ops_ok += 1;
+            rep.branch("market-mediated-allocation");
+            let o = observe(&op, &line, true, &ret, &before, &after, &traces, epoch, &mut g, &mut lean, &mut lines, &mut notes);
+            if let Some((kind, detail)) = o.violation {
+                let path = write_replay(prop, &format!("{}-{}", cfg.seed, seq), &hdr("market TransferFrom"), &lines);
+                rep.violations.push(Violation { kind, detail, replay: path });
+                continue 'seqs;
+            }
+            if let Some((i, m)) = o.disagreement {
+                let path = write_replay(prop, &format!("corr-{}-{}", cfg.seed, seq), &hdr("market TransferFrom"), &lines);
+                rep.disagreements.push(Disagreement { seq, step: lines.len() as u64, op: line, impl_out: i, model_out: m, replay: path });
+                continue 'seqs;
+            }
+            epoch += r.range(0, 50);
+            s.w.vm.set_epoch(epoch);
+        }
+        // then a stretch of the generic history over the market-made allocations
+        for _ in 0..r.range(5, 25) {
+            let p = project(&s);
+            let op = gen_op(&mut r, &s, &p, epoch);
+            if let Op::Advance { to_epoch } = op {
+                epoch = to_epoch;
+                s.w.vm.set_epoch(epoch);
+                lines.push(format!("# epoch {}", epoch));
+                rep.op("advance");
+                continue;
+            }
+            run_op!(op);
+        }
+        for n in notes { if !rep.notes.contains(&n) { rep.notes.push(n); } }
+        if lean.is_some() { rep.traces_validated += 1; }
+    }
+}
+
 pub fn run(cfg: &RunCfg) -> Report {
     let mut rep = Report::new("C09", cfg.seed, &cfg.tier);
     rep.nontrivial_rule = "a sequence is non-trivial when at least one allocation ended (claimed by a miner or expired and refunded); distinct = distinct hash of the op lines".into();
     let (nseq, maxlen) = if cfg.thorough() { (3000u64, 300u64) } else { (120, 70) };
     run_generic("C09", cfg, &mut rep, nseq * cfg.budget, maxlen, 0);
+    run_market("C09", cfg, &mut rep, (if cfg.thorough() { 300 } else { 15 }) * cfg.budget, 100_000);
     rep
 }
